@@ -430,12 +430,13 @@ func c09Trace(r *Run, idx int, cfg c09Cfg) {
 				// hot set" during the measured quarter: observed 0.918..0.958 in 4 of 24 traces at MaxSize
 				// 1024 / 2048 (1:1 mix: never below 0.993). Outside those bounds it is a new violation.
 				key = "hot-set-lost/after-recency-phase/adaptive-window-squeezed-protected-below-hot-set/maxsize<=2048/hit-ratio>=0.80"
-			} else if !cfg.AfterRec && minProtCap < sum && cfg.MaxSize <= 1000 && hr >= 0.70 {
+			} else if !cfg.AfterRec && minProtCap < sum && cfg.MaxSize <= 1024 && hr >= 0.70 {
 				// the open finding, identified by what was observed on the unchanged tree over 1620 hot-set
 				// traces: the hill climber grows the window until the protected region is smaller than the
-				// hot set; seen at MaxSize 50..1000 (never at >= 10000), hit ratio never below 0.818.
+				// hot set; seen at MaxSize 50..1000 and once at 1024 (never at >= 4096: 0 of 864 traces, also with
+				// the machine loaded to 40), hit ratio never below 0.818.
 				// Anything outside those observed bounds, or without the squeeze, is a new violation.
-				key = "hot-set-lost/adaptive-window-squeezed-protected-below-hot-set/maxsize<=1000/hit-ratio>=0.70"
+				key = "hot-set-lost/adaptive-window-squeezed-protected-below-hot-set/maxsize<=1024/hit-ratio>=0.70"
 			}
 			r.Violate(key,
 				fmt.Sprintf("hot set of %d keys (cost %d of MaxSize %d, %s cache, %s) read %d:%d against one-off inserts: hit ratio over the last quarter of %d requests is %.4f < %.2f (protected capacity fell to %d, window capacity rose to %d during that quarter)", len(hot), sum, cfg.MaxSize, cfg.Kind, state, cfg.Reads, cfg.Inserts, cfg.Requests, hr, c09HotThreshold, minProtCap, maxWinCap), res)
@@ -539,6 +540,15 @@ func runC09(r *Run) {
 		var f []c09Cfg
 		for _, c := range all {
 			if c.AfterRec {
+				f = append(f, c)
+			}
+		}
+		all = f
+	}
+	if m := mustAtoi(r.Args["onlysize"], 0); m > 0 { // calibration aid: only the hot-set traces of one MaxSize
+		var f []c09Cfg
+		for _, c := range all {
+			if c.Workload == "hot" && c.MaxSize == m && !c.AfterRec {
 				f = append(f, c)
 			}
 		}
